@@ -252,8 +252,10 @@ def prove_tie(chk, tie_module, translators, meaning, extra_targets=('driver',)):
     if not tie.ok:
         lean.problems = list(lean.problems) + [tie_module + ': ' + p for p in tie.problems]
         chk.broken.append({'kind': 'proof', 'module': tie_module, 'translation': tr, 'problems': tie.problems, 'meaning': meaning})
+    chk.coverage.setdefault('ties', [])          # every tie of this check (a check may have several); 'tie' below is the last one
     chk.coverage['tie'] = {'module': tie_module, 'translators': ['tools/translate/%s2lean.py' % n for n in translators], 'translation': tr,
                            'checked': tie_ok, 'theorems': tie.theorems, 'problems': tie.problems[:8]}
+    chk.coverage['ties'].append(chk.coverage['tie'])
     return tie_ok
 
 # ----------------------------------------------------------------------------- driver
